@@ -201,10 +201,10 @@ class ZeroLinearOperator(LinearOperator):
             raise RuntimeError("Size mismatch, self: {}, other: {}".format(self.size(), other.size()))
         new_m = self.size(-2)
         if tensor_size_ind == -1:
-            *batch_shape, m = other.shape
-            output_shape = (*batch_shape, new_m)
+            output_shape = (*self.batch_shape, new_m)
         else:
             *batch_shape, m, n = other.shape
+            batch_shape = torch.broadcast_shapes(self.batch_shape, torch.Size(batch_shape))
             output_shape = (*batch_shape, new_m, n)
         return ZeroLinearOperator(*output_shape, dtype=other.dtype, device=other.device)
 
